@@ -853,10 +853,10 @@ func TestCheck(t *testing.T) {
 			if o.result == "rejected" || o.result == "decode-failed" {
 				rejectedBy[j.it.ID]++
 			}
-			if o.class == "valid" && o.result == "accepted" {
+			if strings.HasSuffix(o.class, "valid") && o.result == "accepted" {
 				acceptedTwins[j.it.ID]++
 			}
-			if o.class == "valid" && o.result == "rejected" {
+			if strings.HasSuffix(o.class, "valid") && o.result == "rejected" {
 				rejectedTwins[j.it.ID+" ("+o.errText+")"]++
 			}
 			if o.recHdr {
